@@ -139,6 +139,24 @@ def run(ctx):
                 w = rs.randint(-1000, 1000, size=(m,)).astype(float)
                 if not np.array_equal(mc.compress_matrix(mc.reinflate_matrix(w)), w):
                     ctx.violation("impl-violation", "compress(reinflate(v)) != v", {"n": n}, {"site": "roundtrip"})
+                # … and on arbitrary finite doubles: random bit patterns over the whole exponent range (subnormals, the
+                # smallest normals, up to 2^1022 so that doubling the diagonal cannot overflow), compared by value
+                bits = rs.randint(0, 2 ** 63 - 1, size=(n, n), dtype=np.int64)
+                F = bits.view(np.float64).copy()
+                F[~np.isfinite(F) | (np.abs(F) > 2.0 ** 1022)] = 1.5
+                F[rs.rand(n, n) < 0.3] *= -1.0
+                tiny = np.array([5e-324, 1.5e-323, 2.2250738585072014e-308, 2.225073858507202e-308, 3e-310, -7e-320])
+                for i_ in range(n):
+                    if rs.rand() < 0.5:
+                        F[i_, i_] = tiny[rs.randint(len(tiny))]
+                SF = np.triu(F) + np.triu(F, 1).T
+                vf = mc.compress_matrix(SF)
+                if not np.array_equal(mc.reinflate_matrix(vf), SF):
+                    ctx.violation("impl-violation", "reinflate(compress(S)) != S for a symmetric matrix of finite doubles "
+                                  "(subnormal / extreme magnitudes)", {"n": n}, {"site": "roundtrip-float"})
+                if not np.array_equal(mc.compress_matrix(mc.reinflate_matrix(vf.copy())), vf):
+                    ctx.violation("impl-violation", "compress(reinflate(v)) != v for a vector of finite doubles",
+                                  {"n": n}, {"site": "roundtrip-float"})
                 if n <= model_n_mat and pass_no == 0:
                     cells = [int(x) for x in S.reshape(-1)]
                     o = ctx.driver.run([f"compress {n} {show_list(cells)}",
